@@ -48,6 +48,17 @@ PERSISTENT = {"slowhead": True, "persist-idle": True, "http10-keepalive": True, 
               "close-stream": False, "http10": False, "post-slow-body": False, "persist-then-close": True}
 
 
+class _View(object):
+    """valet.reqs / valet.reps look-alike over a Porter's stewards."""
+
+    def __init__(self, stewards, attr):
+        self.stewards, self.attr = stewards, attr
+
+    def get(self, ca):
+        st = self.stewards.get(ca)
+        return getattr(st, self.attr) if st is not None else None
+
+
 class C28(Check):
     pid = "C28"
     level = "exploration"
@@ -58,12 +69,12 @@ class C28(Check):
             "gaps, a pipe capacity drawn per run (with small pipes and large pieces every pass ends in a partial send, the peer reading 7 / 40 / all bytes at a time), keep-alive requests left idle), a seeded schedule of server service passes, clock advances (multiples "
             "of 1/8 s), peer sends of 1-n bytes, peer reads and peer closes; non-trivial = at least one connection was "
             "closed by the server; distinct = digest of per-step (open connections, clock)")
-    components = {"real": ["ioflo.aio.http.serving.Valet/Requestant/Responder", "ioflo.aio.tcp.serving.Server/ServerTls/Incomer/IncomerTls",
+    components = {"real": ["ioflo.aio.http.serving.Valet/Requestant/Responder", "ioflo.aio.http.serving.Porter/Steward (a quarter of the runs)", "ioflo.aio.tcp.serving.Server/ServerTls/Incomer/IncomerTls",
                            "ioflo.aid.timing.StoreTimer", "ioflo.base.storing.Store"],
                   "stub": ["socket module", "TLS record layer / handshake", "peers", "WSGI app (plan driven)", "store clock advanced by the simulator"]}
     assumptions = ["'activity' is a byte accepted by send or returned by recv on the connection's socket (TLS: record bytes)",
                    "safety only: nothing requires an idle connection to be dropped promptly"]
-    required_probes = ["timer-close", "response-complete-close", "persisted-survived", "tls", "plain", "active-beyond-timeout", "partial-send-beyond-timeout", "http10-keepalive-survived"]
+    required_probes = ["timer-close", "response-complete-close", "persisted-survived", "tls", "plain", "active-beyond-timeout", "partial-send-beyond-timeout", "http10-keepalive-survived", "porter"]
     quick_runs = 8000
     thorough_runs = 400000
     shrink_fields = ["schedule", "peers"]
@@ -108,8 +119,15 @@ class C28(Check):
                 sched.append(["pr", s.randint(0, npeers - 1), s.choice([1 << 16, 1 << 16, 40, 7])])
             else:
                 sched.append(["pc", s.randint(0, npeers - 1)])
-        return {"tls": g.random() < 0.5, "timeout": g.choice([0.5, 1.0, 2.0]), "peers": peers, "shapes": shapes, "schedule": sched,
+        plan = {"tls": g.random() < 0.5, "timeout": g.choice([0.5, 1.0, 2.0]), "peers": peers, "shapes": shapes, "schedule": sched,
                 "cap": g.choice([1 << 16, 1 << 16, 96, 200])}
+        # the other HTTP server of the module (Porter: one Steward per connection, echoes the request) in place of the Valet
+        # (side generator: all other plans stay as they were)
+        import random as _r
+        sg = _r.Random(hashlib.sha256(repr((g.getstate(), s.getstate())).encode()).hexdigest())
+        if sg.random() < 0.25:
+            plan["server"] = "porter"
+        return plan
 
     def execute(self, plan):
         from ioflo.aio.http import serving
@@ -129,9 +147,19 @@ class C28(Check):
             kw = dict(store=store, app=app, ha=("", HPORT), bufsize=4096, timeout=T)
             if tls:
                 kw.update(scheme="https", context=ctx)
-            valet = serving.Valet(**kw)
-            if not valet.open():
-                raise RuntimeError("harness: valet did not open")
+            porter = plan.get("server") == "porter"
+            if porter:
+                out.probe("porter")
+                del kw["app"]
+                valet = serving.Porter(**kw)
+                if not valet.servant.reopen():
+                    raise RuntimeError("harness: porter did not open")
+                valet.reqs = _View(valet.stewards, "requestant")
+                valet.reps = _View(valet.stewards, "responder")
+            else:
+                valet = serving.Valet(**kw)
+                if not valet.open():
+                    raise RuntimeError("harness: valet did not open")
             peers = []
             for i, spec in enumerate(plan["peers"]):
                 raw = SimSocket(net, "peer")
